@@ -1172,6 +1172,13 @@ func Harness_C04_passphrase() {
 // Harness_C04_other_type: a file for 1..3 native recipients, decrypted with a
 // passphrase identity (a type the file has no stanza for) among non-matching
 // native identities: no reader, the no-match error with one cause per identity.
+// foreignRecipient emits one stanza of a type no native identity knows.
+type foreignRecipient struct{ n int }
+
+func (f foreignRecipient) Wrap(fileKey []byte) ([]*Stanza, error) {
+	return []*Stanza{{Type: "zz-foreign", Args: []string{"x"}, Body: make([]byte, f.n)}}, nil
+}
+
 func Harness_C04_other_type() {
 	V.InstallTape()
 	idA, idB, x := symIdentity("skA"), symIdentity("skB"), symIdentity("skX")
@@ -1179,6 +1186,16 @@ func Harness_C04_other_type() {
 	recips := []Recipient{idA.Recipient()}
 	for k := V.Int("extra", 0, 2); k > 0; k-- {
 		recips = append(recips, idB.Recipient())
+	}
+	// a stanza of a foreign type, with a body shorter, as long as or longer than
+	// a native wrapped file key, in front of or behind the native stanzas
+	if V.Bool("foreign") {
+		f := foreignRecipient{n: []int{0, 31, 32, 33, 256}[V.Int("fbody", 0, 4)]}
+		if V.Bool("ffirst") {
+			recips = append([]Recipient{f}, recips...)
+		} else {
+			recips = append(recips, f)
+		}
 	}
 	var file bytes.Buffer
 	w, err := Encrypt(&file, recips...)
